@@ -98,7 +98,7 @@ fn main() {
     let bound: i64 = tier.pick(120, 1000);
     run.bound("max_abs_x", bound);
     run.bound("quick_tier_extra_large_arguments", "+-{150,250,400,471,472,480,500,700,999,1000}, 999.99, -777.7");
-    run.rule("every argument of the grid (all integers in [-B,B]; mantissa x scale grid, both signs, |x| <= B; k*ln10 +- 1e-30; zeros with scales) through exp(), compared with an outward-rounded interval enclosure of e^x (width < 1/1000 unit, asserted): positive, within one unit of the P-th significant digit; consecutive arguments in sorted order checked for monotonicity up to 2 units; non-trivial = non-zero argument (a series must be summed); arguments distinct by construction (deduplicated)");
+    run.rule("every argument of the grid (all integers in [-B,B]; mantissa x scale grid, both signs, |x| <= B; k*ln10 +- 1e-30; zeros with scales; value-equal spellings with k written-out trailing zeros) through exp(), compared with an outward-rounded interval enclosure of e^x (width < 1/1000 unit, asserted): positive, within one unit of the P-th significant digit; consecutive arguments in sorted order checked for monotonicity up to 2 units; non-trivial = non-zero argument (a series must be summed); arguments distinct by construction (deduplicated)");
     run.assume("the enclosure model is validated at start-up against 110 published digits of e and e*e^-1 = 1");
 
     let mut args: Vec<Dec> = vec![];
@@ -149,6 +149,30 @@ fn main() {
             args.push(Dec { n: &v + d, s: 30 });
         }
     }
+    // value-equal spellings: the working precision of the series is derived from the STORED digit count, so
+    // the same value written with k trailing zeros exercises a different working precision (and any budget
+    // computed from digits()); every integer of the inner range and the small mantissa grid, k on both sides
+    // of the guard-digit counts of the series (5, 12, 17) and far beyond
+    let pad_ks: Vec<u64> = tier.pick(vec![1, 2, 5, 6, 11, 12, 13, 17, 20, 40, 100], vec![1, 2, 3, 4, 5, 6, 8, 11, 12, 13, 16, 17, 18, 20, 30, 40, 60, 100, 117, 200]);
+    let inner: i64 = tier.pick(120, 300).min(bound);
+    run.bound("padded_spellings_k", json!(pad_ks));
+    run.bound("padded_spellings_integer_range", inner);
+    for &k in &pad_ks {
+        let pk = pow10(k);
+        for i in (-inner..=inner).chain([-bound, -100, 100, bound]) {
+            if i != 0 {
+                args.push(Dec { n: BigInt::from(i) * &pk, s: k as i128 });
+            }
+        }
+        for m in [15i64, 25, 69315, 314159, -15, -25, -69315, -314159] {
+            for s in [1i128, 3, 4, 6] {
+                let x = Dec { n: BigInt::from(m) * &pk, s: s + k as i128 };
+                if cmp_val(&x.n.abs(), x.s, &BigInt::from(bound), 0) != Ordering::Greater {
+                    args.push(x);
+                }
+            }
+        }
+    }
     for s in [0i128, 7, -7] {
         args.push(Dec::new(0, s));
     }
@@ -186,12 +210,20 @@ fn main() {
                 if !rx.n.is_positive() || !ry.n.is_positive() {
                     continue;
                 }
-                if cmp_val(&args[i - 1].n, args[i - 1].s, &args[i].n, args[i].s) != Ordering::Less {
+                let c = cmp_val(&args[i - 1].n, args[i - 1].s, &args[i].n, args[i].s);
+                if c == Ordering::Greater {
                     continue;
                 }
                 t.transitions += 1;
                 if let Some(v) = mono(&args[i - 1], &args[i], rx, ry) {
                     run.report(v);
+                }
+                // value-equal spellings: x <= y and y <= x
+                if c == Ordering::Equal {
+                    t.transitions += 1;
+                    if let Some(v) = mono(&args[i], &args[i - 1], ry, rx) {
+                        run.report(v);
+                    }
                 }
             }
         }
